@@ -44,6 +44,8 @@ class DeepHooks(IOHooks):
             return False
         if callee.get("kind") == "ctor":
             return not callee.get("copy") and not callee.get("implicit")
+        if callee.get("static") and not callee.get("record") and callee.file == ex.fn.file:
+            return True            # a file-local helper is part of its caller (e.g. the function that distributes a block just read)
         if not re.match(r"^(new|init|alloc)_", callee.name):
             return False
         for i, p in enumerate(callee.params):
@@ -296,7 +298,7 @@ def compare(chk, v, tname, W, R, where, vn):
     class _NoExpansion(Exception):
         pass
 
-    def expand_compare(ws, rs, loopmap, ctx, totals_only=False):
+    def expand_compare(ws, rs, loopmap, ctx, totals_only=False, staged=False):
         from sa.secretflow import eval_term
         wvars, rvars = set(), set()
 
@@ -350,7 +352,7 @@ def compare(chk, v, tname, W, R, where, vn):
                 elif o["op"] == "if":
                     ts = [o["cond"]]
                     collect(o["then"], tr, lv); collect(o["else"], tr, lv)
-                elif o["op"] == "bin":
+                elif o["op"] in ("bin", "unstage"):
                     ts = [o["size"]]
                 for t in ts:
                     for a in leaves(tr(t)):
@@ -388,7 +390,7 @@ def compare(chk, v, tname, W, R, where, vn):
                         if c_ is None:
                             raise _NoExpansion("condition %s" % sym.show(tr(o["cond"]))[:80])
                         go(o["then"] if c_ else o["else"], env)
-                    elif o["op"] in ("bin", "text"):
+                    elif o["op"] in ("bin", "text", "unstage"):
                         out.append((o, dict(env), ops, i))
                     else:
                         raise _NoExpansion("op %s" % o["op"])
@@ -397,6 +399,91 @@ def compare(chk, v, tname, W, R, where, vn):
 
         def inst(t, env):
             return sym.fold(sym.subst(t, {k_: I(v_) for k_, v_ in env.items() if isinstance(v_, int)}))
+        def flat_rows(t, asg):
+            """X->ks[i][j][k] with literal subscripts is X->ks0_raw[(i*t + j)*base + k] (the constructor's tables, C08.R5): one name
+            for a key-switch row whichever table it is reached through"""
+            if not isinstance(t, tuple) or not t or not isinstance(t[0], str):
+                return t
+            if t[0] == "idx" and t[1][0] == "idx" and t[1][1][0] == "idx" and t[1][1][1][0] == "fld" and t[1][1][1][2] == "ks" and \
+                    all(x_[0] == "int" for x_ in (t[2], t[1][2], t[1][1][2])):
+                X = t[1][1][1][1]
+                tv = eval_term(inst(wt(sym.fld(X, "t")), {}), asg)
+                bv = eval_term(inst(wt(sym.fld(X, "base")), {}), asg)
+                if tv is not None and bv is not None:
+                    return sym.idx(sym.fld(X, "ks0_raw"), I((t[1][1][2][1] * tv + t[1][2][1]) * bv + t[2][1]))
+            if t[0] == "poly":
+                return t
+            return tuple(flat_rows(x_, asg) if isinstance(x_, tuple) else x_ for x_ in t)
+
+        def destage(trace_r, asg):
+            """reader transfers with staged reads resolved: a read into a private buffer followed by the statements that copy out of it
+            is the sequence of transfers into their destinations, in buffer order; the copies must tile the bytes read exactly.
+            -> new trace, or a problem text"""
+            out, pend = [], [None]
+
+            def flush():
+                if pend[0] is None:
+                    return None
+                P_ = pend[0]
+                pend[0] = None
+                segs = sorted(P_["segs"], key=lambda s_: s_[0])
+                pos = 0
+                for off, size, dst, es, line in segs:
+                    if off != pos:
+                        return "of the %d bytes read into the staging buffer at line %s, bytes [%d, %d) are %s" % (
+                            P_["size"], P_["l"], min(pos, off), max(pos, off), "never delivered" if off > pos else "delivered twice")
+                    pos += size
+                if pos != P_["size"]:
+                    return "of the %d bytes read into the staging buffer at line %s only %d are delivered to the object" % (P_["size"], P_["l"], pos)
+                run = None
+                for off, size, dst, es, line in segs:
+                    b_, o_ = sym.ptr_split(dst)
+                    oi = sym.const_value(o_)
+                    if run is not None and oi is not None and run["base"] == b_ and run["next"] == oi and run["es"] == es:
+                        run["size"] += size
+                        run["next"] += size // es
+                        continue
+                    if run is not None:
+                        out.append(({"op": "bin", "dir": "r", "ptr": run["ptr"], "size": I(run["size"]), "l": run["l"], "synth": True}, {}, [], 0))
+                    run = {"base": b_, "next": (oi + size // es) if oi is not None else None, "es": es, "ptr": dst, "size": size, "l": line}
+                if run is not None:
+                    out.append(({"op": "bin", "dir": "r", "ptr": run["ptr"], "size": I(run["size"]), "l": run["l"], "synth": True}, {}, [], 0))
+                return None
+            for o_, e_, ops_, i_ in trace_r:
+                if o_["op"] == "bin" and o_.get("dir") == "r":
+                    sr0 = ioseq._staging_root(o_["ptr"])
+                    sr_ = ioseq._staging_root(inst(rt(o_["ptr"]), e_)) if sr0 is not None and sr0[0] not in canon else None
+                    if sr_ is not None:
+                        pb = flush()
+                        if pb:
+                            return pb
+                        sz = eval_term(inst(rt(o_["size"]), e_), asg)
+                        if sz is None:
+                            raise _NoExpansion("size of the staged read")
+                        pend[0] = {"size": sz, "root": sr_[0], "segs": [], "l": o_["l"]}
+                        continue
+                if o_["op"] == "unstage":
+                    sr0 = ioseq._staging_root(o_["src"])
+                    if sr0 is None or sr0[0] in canon:
+                        continue                      # a copy out of an array of the object itself: not a staged read
+                    src = inst(rt(o_["src"]), e_)
+                    sr_ = ioseq._staging_root(src)
+                    if sr_ is None:
+                        raise _NoExpansion("source of a copy out of the staging buffer")
+                    if pend[0] is None or sr_[0] != pend[0]["root"]:
+                        raise _NoExpansion("copy out of a buffer that was not just read")
+                    off = eval_term(sr_[1], asg)
+                    size = eval_term(inst(rt(o_["size"]), e_), asg)
+                    if off is None or size is None:
+                        raise _NoExpansion("offset of a copy out of the staging buffer")
+                    pend[0]["segs"].append((off * sr_[2], size, flat_rows(inst(rt(o_["dst"]), e_), asg), o_["es"], o_["l"]))
+                    continue
+                pb = flush()
+                if pb:
+                    return pb
+                out.append((o_, e_, ops_, i_))
+            pb = flush()
+            return pb if pb else out
         assignments = [{d: 2 + (k_ % 2) for k_, d in enumerate(dims)}, {d: 3 - (k_ % 2) for k_, d in enumerate(dims)}, {d: 1 for d in dims}]
         checked = 0
         for asg in assignments:
@@ -428,6 +515,19 @@ def compare(chk, v, tname, W, R, where, vn):
                     return ["%s: with %s the writer produces %d bytes of binary data and the reader requests %d" % (ctx, dimtxt, bw, br)]
                 continue
             dimtxt = ", ".join("%s=%d" % (sym.show(d)[:30], asg[d]) for d in dims[:6])
+            if staged:
+                try:
+                    trr = destage(trr, asg)
+                except _NoExpansion as e_:
+                    import os
+                    if os.environ.get("VERIF_DEBUG"): print("NODESTAGE", ctx, e_)
+                    return None
+                if isinstance(trr, str):
+                    return ["%s: with %s: %s" % (ctx, dimtxt, trr)]
+                # the writer's transfers at the same granularity: a run of elements is one transfer on both sides
+                tw = [(dict(o_, ptr=flat_rows(inst(wa(o_["ptr"]), e_), asg), size=I(eval_term(inst(wt(o_["size"]), e_), asg) or -1), synth=True), {}, ops_, i_)
+                      if o_["op"] == "bin" and glob_const(v, o_["ptr"]) is None and not (sym.root_of(o_["ptr"]) or ("",))[0] == "var" else (o_, e_, ops_, i_)
+                      for o_, e_, ops_, i_ in tw]
             if len(tw) != len(trr):
                 k_ = min(len(tw), len(trr))
                 extra = (tw if len(tw) > len(trr) else trr)[k_]
@@ -446,15 +546,17 @@ def compare(chk, v, tname, W, R, where, vn):
                         del problems[before:]
                         return sub
                     continue
-                sw, sr = eval_term(inst(wt(w["size"]), ew), asg), eval_term(inst(rt(r["size"]), er), asg)
+                sw = eval_term(w["size"], {}) if w.get("synth") else eval_term(inst(wt(w["size"]), ew), asg)
+                sr = eval_term(r["size"], {}) if r.get("synth") else eval_term(inst(rt(r["size"]), er), asg)
                 if sw is None or sr is None:
                     import os
                     if os.environ.get("VERIF_DEBUG"): print("SIZE", ctx, sym.show(inst(wt(w["size"]), ew)), sym.show(inst(rt(r["size"]), er)))
                     return None
                 if sw != sr:
                     return ["%s: with %s: %d bytes written at line %s (%s), %d read at line %s" % (ctx, dimtxt, sw, w["l"], sym.show(w["ptr"])[:60], sr, r["l"])]
-                wp, rp = inst(wa(w["ptr"]), ew), inst(rt(r["ptr"]), er)
-                wc = glob_const(v, w["ptr"])
+                wp = w["ptr"] if w.get("synth") else inst(wa(w["ptr"]), ew)
+                rp = r["ptr"] if r.get("synth") else inst(rt(r["ptr"]), er)
+                wc = None if w.get("synth") else glob_const(v, w["ptr"])
                 if wc is not None:
                     cell = rp[1] if rp[0] == "addr" else rp
                     tc = next_tag(cell, r)
@@ -463,6 +565,8 @@ def compare(chk, v, tname, W, R, where, vn):
                                                                          "expects %d" % tc[0] if tc[0] != wc else "is not stopped by a mismatch")]
                     continue
                 wr_, rr_ = sym.root_of(wp), sym.root_of(rp)
+                if staged and rr_ is not None and rr_[0] == "var" and not (wr_ is not None and wr_[0] == "var"):
+                    return None         # the destination is a local pointer whose progress is not in closed form: undecided
                 if wr_ is not None and wr_[0] == "var" and rr_ is not None and rr_[0] == "var":
                     nxt = wops[wi + 1] if wi + 1 < len(wops) else None
                     why = summary_is_max(W["eff"], wr_, nxt)
@@ -560,6 +664,14 @@ def compare(chk, v, tname, W, R, where, vn):
         res = expand_compare(W["ops"], R["ops"], {}, tname, totals_only=True)
         if isinstance(res, list):
             return res, 1
+        # then the distribution: the statements that copy out of the buffer are paired with the read that filled it
+        rops = ioseq.extract_ops(R["eff"], "r", unstage=True)
+        ioseq.attach_reader_details(R["eff"], rops)
+        res = expand_compare(W["ops"], rops, {}, tname, staged=True)
+        if isinstance(res, list):
+            return res, 1
+        if res is True:
+            return [], 1
         from sa.pipeline import AnalysisBroken
         raise AnalysisBroken("%s: the reader reads into a private staging buffer at line %s and distributes the bytes afterwards; the byte "
                              "counts agree, the distribution of staged reads is not modelled" % (tname, staged_read["l"]))
